@@ -393,8 +393,9 @@ impl Bucket {
     /// # Errors
     ///
     /// Returns [`InvalidBucketConfig`] when `max`, `bytes_per_second`, or
-    /// `refill_period` are non-positive, or when the configuration would refill
-    /// less than one token per period.
+    /// `refill_period` are non-positive, when `refill_period` is longer than
+    /// `u32::MAX` milliseconds, or when the configuration would refill less than
+    /// one token per period.
     pub fn new(
         max: i64,
         bytes_per_second: i64,
@@ -403,7 +404,11 @@ impl Bucket {
         // milliseconds is the tokio timer resolution
         let refill = bytes_per_second.saturating_mul(refill_period.as_millis() as i64) / 1000;
         ensure!(
-            max > 0 && bytes_per_second > 0 && refill_period.as_millis() as u32 > 0 && refill > 0,
+            max > 0
+                && bytes_per_second > 0
+                && refill_period.as_millis() as u32 > 0
+                && refill_period.as_millis() <= u32::MAX as u128
+                && refill > 0,
             InvalidBucketConfig {
                 max,
                 bytes_per_second,
@@ -446,7 +451,7 @@ impl Bucket {
 
         self.fill = self
             .fill
-            .saturating_add(refill_periods as i64 * self.refill);
+            .saturating_add(self.refill.saturating_mul(refill_periods as i64));
         self.fill = std::cmp::min(self.fill, self.max);
         self.last_fill += self.refill_period * refill_periods;
     }
@@ -471,7 +476,7 @@ impl Bucket {
 
         let missing = self.fill.saturating_neg();
 
-        let periods_needed = (missing / self.refill) + 1;
+        let periods_needed = (missing / self.refill).saturating_add(1);
         let periods_needed = u32::try_from(periods_needed).unwrap_or(u32::MAX);
 
         Err(self.last_fill + periods_needed * self.refill_period)
